@@ -325,8 +325,9 @@ def entry_point_obligations(rep, tier, unit='wiring:entry-points'):
                 and ast.unparse(binds[0].value.args[1]) == '_parse_' + rname
             rep.add(unit, f'{rname} = ParsingRule(.., _parse_{rname}, ..) [{gname}]', 'schematic', ok)
         for cname, cdef in classes.items():
-            if cname in ('ParsedObject', '_Metadata', 'ParsingRule', 'InputError', 'ParseError', 'PartialParseError', 'Infix',
-                         'Prefix', 'Postfix', '_ParseFunction', '_StringLiteral', '_ByteLiteral', '_Context'):
+            # the classes of the grammar are the emitted subclasses of ParsedObject; everything else is the run-time library
+            # (told apart by what they are, not by a list of names: a new support class is not a grammar class)
+            if cname in ('ParsedObject', 'Infix', 'Prefix', 'Postfix') or not any(ast.unparse(b) == 'ParsedObject' for b in cdef.bases):
                 continue
             p = next((m for m in cdef.body if isinstance(m, ast.FunctionDef) and m.name == 'parse'), None)
             static = p is not None and any(ast.unparse(d) == 'staticmethod' for d in p.decorator_list)
@@ -645,6 +646,11 @@ def _wrapper_cases(rep, unit, ctx):
         rep.add(unit, f'wrapped string literal equals its value and parses with its helper [ctx={int(ctx)}]', 'ground',
                 sl == 'abc' and isinstance(sl, str) and r is S[7] and log == [(lead + (S[1], S[2]), {})])
         log.clear()
+        sb = ns['_wrap_string_literal'](b'ab\xff', f)
+        r = sb(*lead, S[1], S[2])
+        rep.add(unit, f'wrapped bytes literal equals its value (bytes, not the str of its repr) and parses with its helper [ctx={int(ctx)}]', 'ground',
+                sb == b'ab\xff' and isinstance(sb, bytes) and r is S[7] and log == [(lead + (S[1], S[2]), {})], detail={'wrapper': repr(sb)[:60], 'type': type(sb).__name__})
+        log.clear()
         bl = ns['_wrap_byte_literal'](0x41, f)
         r = bl(*lead, S[1], S[2])
         rep.add(unit, f'wrapped byte literal equals its value and parses with its helper [ctx={int(ctx)}]', 'ground',
@@ -779,6 +785,23 @@ def _chain_worker(conn, ign, b_over, c_over, c_new, dotted, seq):
                     got = repr(e)
                 results.append((f'level {lvl + 1}: inherited start parses {tok!r} as X iff some definition visible at this level accepts it',
                                 got == (tok in expect_x[lvl]), {'got': got}))
+        # every ancestor's ignore pattern stays in force in every descendant, next to the descendant's own (patterns ignore ' ' and one letter
+        # of their own: a / b / c): the letter of level k is skipped between tokens at level lvl iff k <= lvl and level k declares ignore
+        # (only when the BASE declares ignore: the tokens of the probe are literals of inherited base rules, which skip at all only then -
+        # "everything B does not mention behaves as in A")
+        for lvl, m in enumerate(mods if ign[0] != 'none' else []):
+            tokx = sorted(expect_x[lvl])[0]
+            for k, letter in enumerate('abc'):
+                try:
+                    m.parse(tokx + letter * 2 + 'y')
+                    got = True
+                except (m.ParseError, m.PartialParseError):
+                    got = False
+                except Exception as e:
+                    got = repr(e)
+                want = k <= lvl and ign[k] != 'none'
+                results.append((f'level {lvl + 1}: the ignore pattern of level {k + 1} is in force iff that level is an ancestor (or the level itself) and declares one',
+                                got == want, {'got': got, 'want': want, 'text': tokx + letter * 2 + 'y'}))
         conn.send(results)
     except Exception:
         import traceback
@@ -1242,6 +1265,16 @@ def namespace_obligations(rep, tier, unit='wiring:namespaces'):
                 for g_ in gen:
                     rep.add(unit, f'parameter `{g_}` of generated {m.name}() stands next to user-chosen parameters and cannot collide (underscore) {tag}',
                             'syntactic', g_.startswith('_') or not user, detail={'function': f'{cdef.name}.{m.name}', 'user_params': user})
+                # names the body READS from outside (globals, builtins) while user-chosen parameter names are in scope: a field / parameter
+                # of that name shadows them inside this function only - finer than the module-level shadowing of item 4
+                if user:
+                    local = set(astutil.params_of(m)) | {t.id for t in ast.walk(m) if isinstance(t, ast.Name) and isinstance(t.ctx, ast.Store)}
+                    for lam_ in [x for x in ast.walk(m) if isinstance(x, ast.Lambda)]:
+                        local |= set(astutil.params_of(lam_))
+                    outside = sorted({t.id for st_ in m.body for t in ast.walk(st_) if isinstance(t, ast.Name) and isinstance(t.ctx, ast.Load) and t.id not in local})   # decorators are evaluated outside
+                    for o_ in outside:
+                        rep.add(unit, f'`{o_}`, read inside generated {m.name}() next to user-chosen parameters, cannot be shadowed by one of them (underscore or documented API) {tag}',
+                                'syntactic', o_.startswith('_') or o_ in DOCUMENTED_API, detail={'function': f'{cdef.name}.{m.name}', 'user_params': user})
                 for lam in [x for x in ast.walk(m) if isinstance(x, ast.Lambda)]:
                     inner_user = {t.id for t in ast.walk(lam.body) if isinstance(t, ast.Name) and t.id.startswith('U_')}
                     rep.add(unit, f'the callable returned by {cdef.name}.{m.name}() does not mention user names under its own parameters {tag}', 'syntactic',
@@ -1321,7 +1354,9 @@ def spelling_obligations(rep, tier, unit='wiring:spellings'):
         ('X1 /? X2', 'Sep(X1, X2, allow_trailer=True)', [f for f in F2 if f[0] != (True, False)]),
         ('X1{2,5}', 'List(X1, min_len=2, max_len=5)', F1na), ('X1{2,10}', 'List(X1, min_len=2, max_len=10)', F1na), ('X1{9,12}', 'List(X1, min_len=9, max_len=12)', F1na),
         ('X1{3}', 'List(X1, min_len=3, max_len=3)', F1na), ('X1{2,}', 'List(X1, min_len=2)', F1na), ('X1{,4}', 'List(X1, max_len=4)', F1),
-        ('X1{0,1}', 'List(X1, min_len=0, max_len=1)', F1), ('X1{1,}', 'List(X1, min_len=1)', F1na), ('X1{n}', 'List(X1, min_len=`"n"`, max_len=`"n"`)', F1na),
+        ('X1{0,1}', 'List(X1, min_len=0, max_len=1)', F1), ('X1{1,}', 'List(X1, min_len=1)', F1na),
+        ('X1{0}', 'List(X1, min_len=0, max_len=0)', F1), ('X1{,0}', 'List(X1, max_len=0)', F1), ('X1{0,}', 'List(X1, min_len=0)', F1na), ('X1{0,0}', 'List(X1, min_len=0, max_len=0)', F1),
+        ('X1{1}', 'List(X1, min_len=1, max_len=1)', F1na), ('X1{1,1}', 'List(X1, min_len=1, max_len=1)', F1na), ('X1{n}', 'List(X1, min_len=`"n"`, max_len=`"n"`)', F1na),
     ]
     for a, b, flags in pairs:
         try:
@@ -1967,3 +2002,38 @@ def _walk_exprs(e):
     out = []
     X.visit(e, out.append)
     return out
+
+
+def frontend_renaming_obligations(rep, tier, unit='ground:front-end-renaming'):
+    """C20 at the front end: an identifier that merely STARTS or ENDS with a keyword of the description language (letters, classy, inner,
+    wherever, ...) is an ordinary identifier - in every position where a name may stand, the syntax tree is the tree of the same
+    description with a neutral name, up to that renaming."""
+    from sourcer import parser as P
+    from checks.c12 import KEYWORDS
+
+    def tree(desc):
+        try:
+            return repr(P.parse(desc))
+        except Exception as e:
+            return f'{type(e).__name__}: {str(e)[:100]}'
+    shapes = {
+        'rule name and references': '{n} = "a"\nstart = {n} | {n}+\nlast = start',
+        'rule name after a rule that ends with a reference': 'first = last\n{n} = "b"\nlast = "a"',
+        'template parameter and keyword argument': 'T({n}) = [{n}, {n}?]\nstart = T("a") | T({n}="b")',
+        'class name, field, let field': 'class {N} {{\n {n}: "a"\n let {n}2: "b"\n pass "c"\n {n}3 => {N}?\n}}',
+        'let variable': 'start = let {n} = "a" in {n} where `lambda v: v`',
+        'operand of an operator table': '{n} = "n"\nstart = {n} between {{\n left: "+"\n prefix: "-"\n}}',
+        'second operand of every binary operator': 'start = ["a" | {n}, "a" >> {n}, "a" << {n}, "a" // {n}, "a" /? {n}, {n} |> `f`, `f` <| {n}, {n} where `f`]\n{n} = "b"',
+    }
+    neutral = 'zq'
+    for sname, sh in shapes.items():
+        ref = tree(sh.format(n=neutral, N=neutral.capitalize()))
+        rep.add(unit, f'{sname}: the neutral description is accepted (vacuity)', 'ground', not ref.startswith(('ParseError', 'PartialParseError')), detail={'tree': ref[:160]})
+        for kw in KEYWORDS:
+            for nm in (kw + 'ters', kw + '2', 'x' + kw):
+                if not nm[0].isalpha():
+                    continue
+                got = tree(sh.format(n=nm, N=nm.capitalize()))
+                want = ref.replace(neutral.capitalize(), nm.capitalize()).replace(neutral, nm)
+                rep.add(unit, f'{sname}: `{nm}` is an ordinary identifier (same tree as with a neutral name, up to the renaming)', 'ground', got == want,
+                        detail={'got': got[:200], 'want': want[:200]})
